@@ -36,6 +36,7 @@ type c17run struct {
 	e2e    bool              // ten inputs with 2048 distinct words each: rebuild the repository with the output
 	canon  bool              // the canonical lists
 	shape  string
+	fault  map[string]int    // file base name -> the first download of it is cut after this many body bytes
 }
 
 // nonEmptyLines is the specification: the list must hold exactly these.
@@ -241,6 +242,25 @@ func (e *Env) c17runs() []*c17run {
 		}
 		runs = append(runs, run)
 	}
+	// fault runs: the first download of some files is cut in the middle of the body (the
+	// declared Content-Length is the full one, so the client sees an unexpected EOF). A tool
+	// that gives up is fine; one that reports success must have written faithful files.
+	nf := e.pick(4, 24)
+	for k := 0; k < nf; k++ {
+		r := rng.New(e.Seed, "C17-fault-"+itoa(k))
+		base := runs[0]
+		if k%2 == 1 {
+			base = runs[len(runs)-1-(k/2)%8]
+		}
+		run := &c17run{name: "fault-" + itoa(k) + "-of-" + base.name, inputs: base.inputs, canon: base.canon, shape: "first-download-cut", fault: map[string]int{}}
+		for j := 0; j < 1+k%3; j++ {
+			f := ref.Files[r.Intn(len(ref.Files))]
+			if body := base.inputs[f]; len(body) > 1 {
+				run.fault[f] = []int{1, len(body) / 2, len(body) - 1, 1 + r.Intn(len(body)-1)}[(k+j)%4]
+			}
+		}
+		runs = append(runs, run)
+	}
 	return runs
 }
 
@@ -319,6 +339,7 @@ func checkC17(e *Env) {
 		// upstream stand-in
 		var rmu sync.Mutex
 		var reqLog []string
+		cutDone := map[string]bool{}
 		ln, err := net.Listen("tcp", "127.0.0.1:0")
 		if err != nil {
 			fatalInconclusive("cannot listen on loopback: %v", err)
@@ -333,6 +354,22 @@ func checkC17(e *Env) {
 				http.NotFound(w, rq)
 				return
 			}
+			if cut, faulty := run.fault[name]; faulty {
+				rmu.Lock()
+				first := !cutDone[name]
+				cutDone[name] = true
+				rmu.Unlock()
+				if hj, ok := w.(http.Hijacker); ok && first {
+					if conn, buf, err := hj.Hijack(); err == nil {
+						fmt.Fprintf(buf, "HTTP/1.1 200 OK\r\nContent-Type: text/plain; charset=utf-8\r\nContent-Length: %d\r\nConnection: close\r\n\r\n", len(body))
+						buf.WriteString(body[:cut])
+						buf.Flush()
+						conn.Close()
+						obs.Inc("downloads_cut_in_the_middle_of_the_body")
+						return
+					}
+				}
+			}
 			w.Header().Set("Content-Type", "text/plain; charset=utf-8")
 			io.WriteString(w, body)
 		})}
@@ -344,9 +381,16 @@ func checkC17(e *Env) {
 		tc.Dir = dir
 		tc.Env = append(os.Environ(), "VERIF_WORDLIST_URL=http://"+ln.Addr().String())
 		tout, terr := tc.CombinedOutput()
+		if terr != nil && len(run.fault) > 0 {
+			obs.Inc("fault_runs_in_which_the_tool_gave_up(nothing_to_judge)")
+			return
+		}
 		if terr != nil {
 			viol(fmt.Sprintf("the tool failed: %v: %s", terr, oneLine(string(tout), 300)), string(tout))
 			return
+		}
+		if len(run.fault) > 0 {
+			obs.Inc("fault_runs_in_which_the_tool_reported_success(judged)")
 		}
 		obs.Inc("tool_runs")
 		// requests observed
@@ -359,6 +403,18 @@ func checkC17(e *Env) {
 			want = append(want, "GET "+upstreamPath+f+".txt")
 		}
 		sort.Strings(want)
+		if len(run.fault) > 0 {
+			// repeated requests are legitimate after a cut download
+			seen := map[string]bool{}
+			var uniq []string
+			for _, g := range got {
+				if !seen[g] {
+					seen[g] = true
+					uniq = append(uniq, g)
+				}
+			}
+			got = uniq
+		}
 		if strings.Join(got, ",") != strings.Join(want, ",") {
 			viol(fmt.Sprintf("unexpected upstream requests: got %v, expected one GET per list", got), got)
 			return
